@@ -13,7 +13,7 @@
    as idempotence + monotonicity, the order dependence through the ValueError is shown by example. *)
 From Coq Require Import List String ZArith Bool.
 Require Import OV.Graph.Syntax OV.Graph.Wf OV.Rewrite.Apply OV.Rewrite.State OV.Rewrite.StateProofs.
-Require Import OV.Rewrite.Naming OV.Rewrite.NamingProofs.
+Require Import OV.Rewrite.Naming OV.Rewrite.NamingProofs OV.Rewrite.FnConstProofs.
 Import ListNotations.
 
 (* ---- frame ------------------------------------------------------------------------------------------------------------ *)
@@ -217,3 +217,21 @@ Theorem C07_merge_example :
   = [[(RULE_NAME_TAG, "R0, Old_a"); ("namespace", "n/a")]; [(RULE_NAME_TAG, "R0, Old_a"); ("namespace", "own")]]%string.
 Proof. exact merge_example. Qed.
 Print Assumptions C07_merge_example.
+
+(* finding C07:as_function:copied-constant:function-lacks-default-domain-import: the extracted function holds a Constant
+   node (copied constant input) but its imports were filtered by the domains of the matched nodes (custom only) *)
+Theorem C07_function_constant_import_refuted :
+  exists ov fs fd, add_function 0 false ex_fn_const_imports ex_fn_const_req [] = Some (ov, fs) /\
+                   dget fkey_eqb ("verif.fn", "Fused", ov)%string fs = Some fd /\ fn_imports_ok fd = false.
+Proof. exact fn_constant_import_refuted. Qed.
+Print Assumptions C07_function_constant_import_refuted.
+
+(* with proposed_fixes/C07_as_function_constant_default_domain_import.diff (filter by the domains of the body) *)
+Theorem C07_function_constant_import_fixed : forall site isfn i q fs ov fs' fd,
+  add_function site isfn i q fs = Some (ov, fs') ->
+  dget fkey_eqb (fq_dom q, fq_name q, ov) fs' = Some fd ->
+  fq_used q = map n_dom (fq_body q) ->
+  (forall d, In d (fq_used q) -> In d (map fst (parent_imports site isfn i))) ->
+  fn_imports_ok fd = true.
+Proof. exact fn_constant_import_fixed. Qed.
+Print Assumptions C07_function_constant_import_fixed.
